@@ -10,7 +10,7 @@ def both(tier, quick, thorough, **kw):
 
 
 def _decl_jobs(tier):
-    return both(tier, (8, 400), (16, 8000))
+    return both(tier, (16, 800), (16, 8000))
 
 
 PLANS['C01'] = dict(
@@ -42,7 +42,7 @@ PLANS['C19'] = dict(
 
 
 PLANS['C20'] = dict(
-    engine='algebra', level='exploration', jobs=lambda tier: both(tier, (8, 300), (16, 6000)),
+    engine='algebra', level='exploration', jobs=lambda tier: both(tier, (16, 600), (16, 6000)),
     minimums=lambda t: {'pairs': 5000, 'pairs_A_extends_B': 300, 'pairs_B_extends_A': 300, 'noLongerProvides': 100},
     rule='Declarations built from arbitrarily nested argument sequences (tuples, lists, Declarations, class '
          'specifications, duplicates) over generated interface DAGs; for every declaration: iteration, membership, '
@@ -70,7 +70,7 @@ _TRACK = ('track', {'ZOPE_INTERFACE_TRACK_BAD_IRO': '1'})
 
 PLANS['C02'] = dict(
     engine='specgraph', level='exploration',
-    jobs=lambda tier: cfg_jobs(tier, (6, 200), (16, 4000), [_DEFAULT]) + cfg_jobs(tier, (2, 200), (8, 3000), [_STRICT]),
+    jobs=lambda tier: cfg_jobs(tier, (12, 500), (16, 4000), [_DEFAULT]) + cfg_jobs(tier, (4, 400), (8, 3000), [_STRICT]),
     minimums=lambda t: {'pair_checks': 20000, 'rebasings': 200, 'rebasings_changing_indirect_dependent': 50,
                         'twin_comparisons': 2000, 'dependents_collected': 5},
     rule='Random graphs of interfaces, plain Declarations, class declarations and instance declarations; random '
@@ -83,7 +83,7 @@ PLANS['C02'] = dict(
 )
 PLANS['C03'] = dict(
     engine='specgraph', level='exploration',
-    jobs=lambda tier: cfg_jobs(tier, (4, 250), (16, 2500), [_DEFAULT]) + cfg_jobs(tier, (1, 250), (4, 2000), [_STRICT, _LEGACY, _WARN, _TRACK]),
+    jobs=lambda tier: cfg_jobs(tier, (8, 600), (16, 2500), [_DEFAULT]) + cfg_jobs(tier, (2, 400), (4, 2000), [_STRICT, _LEGACY, _WARN, _TRACK]),
     minimums=lambda t: {'nodes_checked': 10000, 'consistent_nodes': 3000, 'inconsistent_nodes': 300,
                         'oracle_agreements': 10000, 'legacy_fallback_orders': 100, 'c3_differs_from_dfs': 50},
     rule='Random ordered DAGs (>= 20% inconsistent nodes in the non-strict configurations) of interfaces, plain and class '
@@ -96,7 +96,7 @@ PLANS['C03'] = dict(
 
 
 PLANS['C15'] = dict(
-    engine='attrs', level='exploration', jobs=lambda tier: both(tier, (8, 250), (16, 5000)),
+    engine='attrs', level='exploration', jobs=lambda tier: both(tier, (16, 500), (16, 5000)),
     minimums=lambda t: {'name_comparisons': 10000, 'names_defined_by_2plus_ancestors': 1000,
                         'tags_defined_by_2plus_ancestors': 300, 'rebasings_with_warm_memo': 200,
                         'invariants_from_2plus_ancestors': 100, 'verify_consumer_checks': 30},
@@ -113,7 +113,7 @@ PLANS['C15'] = dict(
 _REG_ASSUME = ['required and provided interfaces come from disjoint DAG families; interfaces have process-unique (name, module)',
                '__sro__ of looked-up specifications is decided by C02/C03 and read by the model']
 PLANS['C04'] = dict(
-    engine='registry', level='exploration', jobs=lambda tier: both(tier, (8, 400), (16, 10000)),
+    engine='registry', level='exploration', jobs=lambda tier: both(tier, (16, 1000), (16, 10000)),
     minimums=lambda t: {'lookups': 10000, 'hits': 2000, 'lookups_2plus_candidates': 800,
                         'lookups_candidates_differing_after_first_position': 100,
                         'winner_changed_by_hierarchy_change': 300},
@@ -126,7 +126,7 @@ PLANS['C04'] = dict(
     assumptions=_REG_ASSUME + ['among tied candidates with unrelated provided interfaces any minimal one is accepted'],
 )
 PLANS['C07'] = dict(
-    engine='registry', level='exploration', jobs=lambda tier: both(tier, (8, 400), (16, 10000)),
+    engine='registry', level='exploration', jobs=lambda tier: both(tier, (16, 1000), (16, 10000)),
     minimums=lambda t: {'subscription_queries': 8000, 'order_pairs': 3000, 'results_from_2plus_registries': 100,
                         'results_with_2plus_keys_in_one_registry': 200, 'unsubscribe_value': 100, 'unsubscribe_all': 100},
     rule='Random subscribe/unsubscribe histories (duplicates, equal-but-distinct values, handlers, arity 0-3, chains) and '
@@ -136,7 +136,7 @@ PLANS['C07'] = dict(
     assumptions=_REG_ASSUME + ['order is only constrained between comparable keys'],
 )
 PLANS['C08'] = dict(
-    engine='registry', level='exploration', jobs=lambda tier: both(tier, (8, 250), (16, 6000)),
+    engine='registry', level='exploration', jobs=lambda tier: both(tier, (16, 600), (16, 6000)),
     minimums=lambda t: {'evaluations': 20000, 'valueerror_probes': 3000, 'keys_with_2plus_names': 50,
                         'subscriber_calls_checked': 200, 'super_proxy_keys': 20},
     rule='For a registry state and key, all nine entry points are called in a seeded order (each observed cold, '
@@ -146,7 +146,7 @@ PLANS['C08'] = dict(
     assumptions=_REG_ASSUME,
 )
 PLANS['C09'] = dict(
-    engine='registry', level='exploration', jobs=lambda tier: both(tier, (8, 250), (16, 6000)),
+    engine='registry', level='exploration', jobs=lambda tier: both(tier, (16, 600), (16, 6000)),
     minimums=lambda t: {'evaluations': 20000, 'rebuilds': 50, 'replay_probes': 200, 'removals_with_sibling_left': 100},
     rule='Random register/unregister/subscribe/unsubscribe/rebuild histories (overwrites, identical re-registration, '
          'register(None), unregister with identical/equal/other value, shared key prefixes) compared after every step '
@@ -162,7 +162,7 @@ def _flav_jobs(tier, quick, thorough):
 
 
 PLANS['C05'] = dict(
-    engine='registry', level='exploration', jobs=lambda tier: _flav_jobs(tier, (4, 150), (8, 3000)),
+    engine='registry', level='exploration', jobs=lambda tier: _flav_jobs(tier, (8, 400), (8, 3000)),
     minimums=lambda t: dict([('probes', 8000), ('answers_changed_by_mutation', 300), ('cache_hits_confirmed', 4000)] +
                             [('changed[%s]' % k, 5) for k in ('register', 'unregister', 'subscribe', 'unsubscribe',
                                                               'registry_bases', 'spec_bases', 'class_declaration', 'object_declaration')]),
@@ -175,7 +175,7 @@ PLANS['C05'] = dict(
     assumptions=_REG_ASSUME + ['re-basing is confined to the required-interface family (the source documents that provided __iro__ changes are not tracked)'],
 )
 PLANS['C06'] = dict(
-    engine='registry', level='exploration', jobs=lambda tier: _flav_jobs(tier, (4, 250), (8, 5000)),
+    engine='registry', level='exploration', jobs=lambda tier: _flav_jobs(tier, (8, 600), (8, 5000)),
     minimums=lambda t: {'ro_invariant_checks': 3000, 'behaviour_probes': 8000, 'rebasings': 300,
                         'rebasings_changing_a_descendant_chain': 60, 'probes_answered_by_an_ancestor': 500,
                         'components_probes': 500, 'components_rebasings': 100},
@@ -190,8 +190,8 @@ PLANS['C06'] = dict(
 
 
 def _c12_jobs(tier):
-    seeds = [0, 1] if tier == 'quick' else [0, 1, 2, 12345, 987654321, 'random']
-    shards, cases = (2, 40) if tier == 'quick' else (4, 400)
+    seeds = [0, 1, 2] if tier == 'quick' else [0, 1, 2, 12345, 987654321, 'random']
+    shards, cases = (4, 60) if tier == 'quick' else (4, 400)
     out = []
     for m in ('py', 'c'):
         for hs in seeds:
@@ -236,7 +236,7 @@ PLANS['C12'] = dict(
 
 
 PLANS['C13'] = dict(
-    engine='pickling', level='exploration', jobs=lambda tier: both(tier, (4, 25), (16, 400)),
+    engine='pickling', level='exploration', jobs=lambda tier: both(tier, (8, 50), (16, 400)),
     minimums=lambda t: {'evaluations': 3000, 'cross_process_loads': 1000, 'roundtrips[class-spec:only]': 20,
                         'roundtrips[class-spec:only_after]': 20, 'roundtrips[class-spec:narrow_then_extend]': 20,
                         'roundtrips[class-provides:provider]': 20, 'roundtrips[instance-provides:nolonger]': 10,
@@ -278,7 +278,7 @@ def _grid_jobs(tier, modes=('py',)):
 
 
 PLANS['C17'] = dict(
-    engine='signature', level='exploration', jobs=lambda tier: _grid_jobs(tier, ('py', 'c') if tier == 'thorough' else ('py',)),
+    engine='signature', level='exploration', jobs=lambda tier: _grid_jobs(tier, ('py', 'c')),
     exhaustive=True,
     minimums=lambda t: {'signature_pairs': 6900, 'pairs_accepted': 1000, 'pairs_rejected': 1000, 'multi_error_cases': 250,
                         'cases_with_2plus_errors': 50, 'special_cases': 5},
@@ -292,7 +292,7 @@ PLANS['C17'] = dict(
                  'verifyClass does not report missing plain attributes (documented)'],
 )
 PLANS['C18'] = dict(
-    engine='signature', level='exploration', jobs=lambda tier: _grid_jobs(tier, ('py', 'c') if tier == 'thorough' else ('py',)),
+    engine='signature', level='exploration', jobs=lambda tier: _grid_jobs(tier, ('py', 'c')),
     exhaustive=True,
     minimums=lambda t: {'descriptions[fromFunction]': 756, 'descriptions[abc]': 756, 'descriptions[fromMethod-bound]': 756,
                         'descriptions[interface-body]': 756, 'shipped_abc_methods': 20},
@@ -306,7 +306,7 @@ PLANS['C18'] = dict(
 
 
 PLANS['C16'] = dict(
-    engine='components', level='exploration', jobs=lambda tier: both(tier, (8, 150), (16, 4000)),
+    engine='components', level='exploration', jobs=lambda tier: both(tier, (16, 400), (16, 4000)),
     minimums=lambda t: {'steps': 4000, 'event_sequences_checked': 4000, 'replaced_utilities': 100,
                         'noop_utility_registrations': 50, 'same_component_multi_name': 100, 'partial_removals': 50,
                         'histories_with_unhashable_components': 20},
@@ -373,7 +373,7 @@ PLANS['C11'] = dict(
 
 def _c10_jobs(tier):
     q = tier == 'quick'
-    shards, cases, steps = (8, 4, 400) if q else (16, 40, 2000)
+    shards, cases, steps = (16, 8, 600) if q else (16, 40, 2000)
     out = [dict(mode=m, shards=shards, cases=cases, steps=steps, mode_independent_rng=True, cfgname='diff') for m in ('py', 'c')]
     if not q:
         out.append(dict(mode='c', shards=8, cases=2, steps=600, mode_independent_rng=True, cfgname='asan', runner='asan', build='asan',
